@@ -180,7 +180,10 @@ fn sched_worker(rx: Receiver<Cmd>, tx: Sender<Value>) {
                 let f = (Decimal::new_raw(5, 10) * Decimal::new_raw(5, 9)).coefficient(); // 2.5e-18 -> 18 digits
                 let g = format!("{:.0}", Decimal::new_raw(65, 1));                 // 6.5
                 let h = Decimal::new_raw(27, 1).round(0).coefficient();           // 2.7
-                tx.send(json!([a, b, c, d, e2, f, g.parse::<i64>().unwrap_or(99), h])).unwrap();
+                // 256-bit product path: (10^21 + 1) * 0.5 at 18 digits, a tie in the 19th place
+                let w = (Decimal::new_raw(1_000_000_000_000_000_000_001, 18) * Decimal::new_raw(500_000_000_000_000_000, 18)).coefficient()
+                    - 500_000_000_000_000_000_000;
+                tx.send(json!([a, b, c, d, e2, f, g.parse::<i64>().unwrap_or(99), h, w as i64])).unwrap();
             }
             Cmd::Spawn(crx, ctx) => {
                 children.push(std::thread::spawn(move || sched_worker(crx, ctx)));
